@@ -1966,6 +1966,17 @@ impl<'a, 'b, W: Write> SerializeTupleStruct for TupleSer<'a, 'b, W> {
 
     fn serialize_field<T: ?Sized + Serialize>(&mut self, value: &T) -> Result<()> {
         match self.kind {
+            TupleKind::Normal if self.ser.in_flow > 0 => {
+                // Inside a flow collection there are no block sequences: write `[a, b]`.
+                if self.idx == 0 {
+                    self.ser.write_space_if_pending()?;
+                    self.ser.write_anchor_for_complex_node()?;
+                    self.ser.out.write_str("[")?;
+                } else {
+                    self.ser.out.write_str(", ")?;
+                }
+                value.serialize(&mut *self.ser)?;
+            }
             TupleKind::Normal => {
                 if self.idx == 0 {
                     self.ser.write_anchor_for_complex_node()?;
@@ -2085,6 +2096,13 @@ impl<'a, 'b, W: Write> SerializeTupleStruct for TupleSer<'a, 'b, W> {
     }
 
     fn end(self) -> Result<()> {
+        if matches!(self.kind, TupleKind::Normal) && self.ser.in_flow > 0 {
+            if self.idx == 0 {
+                self.ser.write_space_if_pending()?;
+                self.ser.out.write_str("[")?;
+            }
+            self.ser.out.write_str("]")?;
+        }
         Ok(())
     }
 }
